@@ -79,4 +79,21 @@ META = {
                 "character-wise automata coincide at character level; get_type codes in 1..6 are re-derived from the regenerated table.",
         "technique": "Lean 4 proof (merge invariant, longest-match/all-occurrences exchange of sums, buffer arithmetic) + translator table + differential correspondence",
     },
+    "C07": {
+        "text": "Unbounded Lean theorems over a byte-exact model of the bincode-2 standard() wire format of Model (varints with "
+                "251/252/253 discriminants, zigzag, raw u8, length-prefixed vectors and validated UTF-8 strings, struct field "
+                "order, magic header): read_slice(to_vec m ++ rest) = (m, rest) and read likewise for every encodable model "
+                "(C07_roundtrip, C07_read_roundtrip, C07_bytes_stable); EVERY proper prefix of a model file is rejected with an "
+                "error by both readers, which also covers a reader failing after k bytes (C07_prefix_rejected, via a 'strict "
+                "decoder' structure closed under sequencing and counted repetition); any different header and any input shorter "
+                "than the header is rejected (C07_foreign_header, C07_short_input); a writer failing part-way yields an error "
+                "(C07_faulty_writer). Tied to /repo by comparing the model's bytes with Model::to_vec byte for byte and by running "
+                "both readers on every prefix, header mutation, trailing bytes and fault position of generated files and of "
+                "resources/model.bin.",
+        "design_ref": "DESIGN.md §6 C07",
+        "note": _common_note + "bincode's own code is not verified; its derive order and primitive encodings are validated by the byte-for-byte "
+                "comparison. Crafted corrupt length prefixes (outside the property's quantifier) make the real decoder panic or abort; "
+                "the model returns a decode error there and no theorem about such inputs is claimed.",
+        "technique": "Lean 4 proof: strict-decoder combinators (round trip + all proper prefixes rejected), UTF-8 and varint round trips; differential correspondence",
+    },
 }
